@@ -6910,12 +6910,23 @@ func (c *linkerContext) generateIsolatedHash(chunk *chunkInfo, channel chan []by
 	hashWriteLengthPrefixed(hash, chunk.outputSourceMap.Mappings)
 	hashWriteLengthPrefixed(hash, chunk.outputSourceMap.Suffix)
 
+	// The source map mode decides which trailing source map comment (if any) is
+	// appended to the chunk after its final path has been computed, so the hash
+	// must change if the mode changes. Otherwise two builds could generate a
+	// file with the same name but with different contents.
+	if c.options.SourceMap != config.SourceMapNone && chunk.outputSourceMap.HasContent() {
+		hashWriteUint32(hash, uint32(c.options.SourceMap))
+	}
+
 	// Also include the external legal comments in the hash. They are written to
 	// a file that is named after the chunk, so the hash must change if they
 	// change even if the chunk data doesn't change. Otherwise two builds could
 	// generate a file with the same name but with different contents.
+	// The same applies to the legal comments mode, which decides whether a
+	// trailing comment that links to that file is appended to the chunk.
 	if len(chunk.externalLegalComments) > 0 {
 		hashWriteLengthPrefixed(hash, chunk.externalLegalComments)
+		hashWriteUint32(hash, uint32(c.options.LegalComments))
 	}
 
 	// Store the hash so far. All other chunks that import this chunk will mix
